@@ -41,6 +41,7 @@ GRAM = ["SELECT * FROM t1 WHERE a = 1;", "CREATE VIEW v1 AS SELECT a, b FROM t1 
         "CREATE TRIGGER tr BEFORE INSERT ON t1 FOR EACH ROW EXECUTE PROCEDURE f();", "EXPLAIN SELECT 1;", "CREATE USER joe;",
         "CREATE POLICY p ON t;", "SHOW TABLES;", "DESCRIBE t1;", "ROLLBACK;", "SAVEPOINT s;", "REVOKE ALL ON t1 FROM joe;",
         # lower case / several lines / OR REPLACE
+        "ALTER TABLE t1 DEFAULT CHARACTER SET utf8mb4 COLLATE utf8mb4_bin;", "ALTER TABLE t1 DISABLE TRIGGER ALL;",
         "select * from t1 where a = 1;", "create view v1 as select a from t1;", "SELECT a,\n  b\nFROM t1\nWHERE a = 1;",
         "CREATE VIEW v1 AS\n  SELECT a\n  FROM t1;", "CREATE OR REPLACE VIEW v AS SELECT 1;"]
 BAD_MODES = ["", "SQL", "Hql", "postgresql", "none", "bigquery ", "sql\n",
